@@ -165,8 +165,8 @@ func init() {
 			i := fr.i
 			st := recvStruct(a[0])
 			l := st[fieldIndexByName(st, fr.fn, "L")].(iface)
-			lockM := i.prog.LookupMethod(l.t, nil, "Lock")
-			unlockM := i.prog.LookupMethod(l.t, nil, "Unlock")
+			lockM := i.findMethod(l.t, "Lock")
+			unlockM := i.findMethod(l.t, "Unlock")
 			i.sched.condWait(a[0].(*value),
 				func() { call(i, fr, token.NoPos, unlockM, []value{l.v}) },
 				func() { call(i, fr, token.NoPos, lockM, []value{l.v}) })
@@ -539,7 +539,7 @@ func fmtArg(i *interpreter, x value) string {
 			return "<nil>"
 		}
 		// error / Stringer
-		if m := i.prog.LookupMethod(it.t, nil, "Error"); m != nil && it.t != errorType {
+		if m := i.findMethod(it.t, "Error"); m != nil && it.t != errorType {
 			if p, ok := it.v.(*value); ok && p == nil {
 				return "<nil>"
 			}
@@ -617,7 +617,7 @@ func extErrorf(fr *frame, a []value) value {
 			if !ok || it.t == nil {
 				continue
 			}
-			if m := i.prog.LookupMethod(it.t, nil, "Error"); m != nil || it.t == errorType {
+			if m := i.findMethod(it.t, "Error"); m != nil || it.t == errorType {
 				if fp := i.prog.ImportedPackage("fmt"); fp != nil {
 					if wt := fp.Type("wrapError"); wt != nil {
 						var cell value = structure{msg, it}
@@ -634,7 +634,7 @@ func (i *interpreter) unwrapErr(e iface) (iface, bool) {
 	if e.t == nil || e.t == errorType {
 		return iface{}, false
 	}
-	m := i.prog.LookupMethod(e.t, nil, "Unwrap")
+	m := i.findMethod(e.t, "Unwrap")
 	if m == nil {
 		return iface{}, false
 	}
@@ -659,7 +659,7 @@ func extErrorsIs(fr *frame, a []value) value {
 			}
 		}
 		if err.t != errorType {
-			if m := i.prog.LookupMethod(err.t, nil, "Is"); m != nil {
+			if m := i.findMethod(err.t, "Is"); m != nil {
 				if i.truth(call(i, fr, token.NoPos, m, []value{err.v, target})) {
 					return true
 				}
@@ -1014,4 +1014,17 @@ func init() {
 
 func init() {
 	externals["time.syncTimer"] = func(fr *frame, a []value) value { return unsafe.Pointer(nil) }
+}
+
+
+// findMethod returns the exported method name of type t, or nil.
+func (i *interpreter) findMethod(t types.Type, name string) *ssa.Function {
+	if t == nil || t == errorType || t == rtypeType || t == inertType {
+		return nil
+	}
+	sel := i.prog.MethodSets.MethodSet(t).Lookup(nil, name)
+	if sel == nil {
+		return nil
+	}
+	return i.prog.MethodValue(sel)
 }
